@@ -344,6 +344,44 @@ theorem changeTo_spec (group succ : List Nat) (c : Nat) (cs : List Nat) (hg : c 
     | some t =>
       simp only [filter_insertBeforeTag_length p t c hpc, hnone]; simp
 
+/-- removing the members of the child's own choice group keeps the sibling list conforming -/
+theorem conf_filter_group (r : Row) (group cs : List Nat) (hc : Conf r cs)
+    (hgrp : ∀ g ∈ group, r.slot g = r.slot r.child) :
+    Conf r (cs.filter fun e => !group.contains e) := by
+  refine ⟨?_, ?_, ?_, ?_⟩
+  · intro e he; exact hc.inModel e (List.mem_filter.mp he).1
+  · exact List.Pairwise.filter _ hc.sorted
+  · intro a b ha hb hne hs
+    exact hc.single a b (List.mem_filter.mp ha).1 (List.mem_filter.mp hb).1 hne hs
+  · intro s hs hne
+    obtain ⟨e, he, hes⟩ := hc.required s hs hne
+    refine ⟨e, List.mem_filter.mpr ⟨he, ?_⟩, hes⟩
+    have : e ∉ group := by
+      intro hg
+      exact hne (by rw [← hes, hgrp e hg])
+    simpa using this
+
+/-- **A choice replacement keeps schema order**: `get_or_change_to_x` — the other members of the choice group removed,
+    `x` inserted by its (adequate) successor list — leaves the children in schema order, whatever conforming siblings
+    exist; when `x` is already there nothing changes. -/
+theorem changeTo_sorted (r : Row) (group cs : List Nat) (ha : r.adequate = true) (hc : Conf r cs)
+    (hgrp : ∀ g ∈ group, r.slot g = r.slot r.child) :
+    Sorted r (changeTo group r.succ r.child cs) := by
+  simp only [changeTo]
+  by_cases h : cs.contains r.child = true
+  · simp only [h, if_true]; exact hc.sorted
+  · have h' : cs.contains r.child = false := by simpa using h
+    simp only [h', Bool.false_eq_true, if_false]
+    exact insertTag_sorted r _ ha (conf_filter_group r group cs hc hgrp)
+
+/-- the same with the group condition as a checkable table predicate (closed per declaration by kernel evaluation) -/
+theorem changeTo_sorted_of_groupOk (r : Row) (group cs : List Nat) (ha : r.adequate = true) (hg : r.groupOk group = true)
+    (hc : Conf r cs) : Sorted r (changeTo group r.succ r.child cs) := by
+  apply changeTo_sorted r group cs ha hc
+  intro g hgm
+  simp only [Row.groupOk, List.all_eq_true, beq_iff_eq] at hg
+  exact hg g hgm
+
 /-! ### the defect the proof exposed (F-C10-1), as a theorem -/
 
 /-- `a:p` content: `a:pPr`(0) then any mix of `a:r`(1) / `a:br`(2) / `a:fld`(3) in one repeatable
